@@ -123,7 +123,15 @@ impl<'i, 's> LexWith<'i, &FilterParser<'s>> for QuantifierArgExpr {
     fn lex_with(input: &'i str, parser: &FilterParser<'s>) -> LexResult<'i, Self> {
         let (arg, rest) = FunctionCallArgExpr::lex_with(input, parser)?;
         let arg = match arg {
-            FunctionCallArgExpr::IndexExpr(index_expr) => Self::IndexExpr(index_expr),
+            FunctionCallArgExpr::IndexExpr(index_expr) => {
+                // A bare `x[*]` is only meaningful as the first argument of a
+                // function call: here it would evaluate to the container itself
+                // (e.g. an array of boolean arrays), not to an array of booleans.
+                if index_expr.map_each_count() > 0 {
+                    return Err((LexErrorKind::InvalidMapEachAccess, span(input, rest)));
+                }
+                Self::IndexExpr(index_expr)
+            }
             FunctionCallArgExpr::Logical(logical_expr) => Self::Logical(logical_expr),
             FunctionCallArgExpr::Literal(literal) => {
                 return Err((
